@@ -146,7 +146,6 @@ func (e *Exec) enterLoop(st *State, h *ssa.BasicBlock, prev *ssa.BasicBlock, li 
 	if back {
 		bindPhis(st)
 		evalInvs(st, "inv-preserved")
-		monitorInvs(st, "inv-preserved")
 		// lockset must be unchanged around the loop
 		return false
 	}
@@ -158,15 +157,10 @@ func (e *Exec) enterLoop(st *State, h *ssa.BasicBlock, prev *ssa.BasicBlock, li 
 	}
 	bindPhis(st)
 	evalInvs(st, "inv-entry")
-	monitorInvs(st, "inv-entry")
+	_ = monitorInvs
 	// havoc everything the loop may modify
 	e.havocLoop(st, h, li)
 	for _, hl := range st.held {
-		// monitor invariants of held locks are implicit loop invariants (proved above / at back edges)
-		ov, t := e.objVal(hl.Owner, hl.Obj)
-		if t != nil {
-			e.assumeInvariants(st, hl.Owner, hl.Field, ov, t)
-		}
 		// wake-up obligations are checked per loop-free segment
 		e.snapshot(st, hl.Term)
 	}
@@ -183,6 +177,11 @@ func (e *Exec) enterLoop(st *State, h *ssa.BasicBlock, prev *ssa.BasicBlock, li 
 }
 
 func hasTrivialLoop(li *loopInfo) bool { return false }
+
+func isCancelFunc(t types.Type) bool {
+	nt, ok := t.(*types.Named)
+	return ok && nt.Obj().Name() == "CancelFunc" && nt.Obj().Pkg() != nil && nt.Obj().Pkg().Path() == "context"
+}
 
 func h0(li *loopInfo) *ssa.BasicBlock { return li.header }
 
@@ -236,12 +235,21 @@ func (e *Exec) havocLoop(st *State, h *ssa.BasicBlock, li *loopInfo) {
 					e.havocMapType(st, mt)
 				}
 			case *ssa.Call:
+				if isCancelFunc(x.Call.Value.Type()) {
+					e.havocKey(st, "ctx#cancelled", arr(SInt, SBool))
+					continue
+				}
 				if e.callMayWriteHeap(&x.Call) {
 					wholeHeap = true
 				}
 			case *ssa.Defer:
 				if e.callMayWriteHeap(&x.Call) {
 					wholeHeap = true
+				}
+			case *ssa.Next:
+				if vis, ok := st.ghost["$visited"]; ok {
+					mt := vis.Typ.Underlying().(*types.Map)
+					st.ghost["$visited"] = Val{T: []string{e.fresh("visited", arr(e.mapKeySort(mt), SBool))}, Typ: vis.Typ}
 				}
 			case *ssa.Go, *ssa.Send:
 			}
